@@ -81,7 +81,26 @@ func (c *canonRunner) Step(line string) string {
 			kv := strings.Split(p, ":")
 			b.Set(idx.ValidatorID(Atou(kv[0])), pos.Weight(Atou(kv[1])))
 		}
-		return c.show(b.Build())
+		vv := b.Build()
+		res := c.show(vv)
+		// the builder and derived builders / copies are used further; the built set must not follow them
+		b.Set(idx.ValidatorID(777777), 5)
+		d := vv.Copy().Builder()
+		d.Set(idx.ValidatorID(888888), 9)
+		e := vv.Builder()
+		e.Set(idx.ValidatorID(999999), 1)
+		if len(f) > 1 {
+			kv := strings.Split(f[1], ":")
+			b.Set(idx.ValidatorID(Atou(kv[0])), 0)
+			d.Set(idx.ValidatorID(Atou(kv[0])), 0)
+			e.Set(idx.ValidatorID(Atou(kv[0])), 0)
+		}
+		last := c.last
+		if c.show(vv) != res {
+			res += " BUILT-SET-CHANGED"
+		}
+		c.last = last
+		return res
 	case "buildraw", "array":
 		// buildraw: the builder map is filled directly (b[id] = w, zero entries stay in the map);
 		// array: ArrayToValidators with the pairs in this order
@@ -99,6 +118,19 @@ func (c *canonRunner) Step(line string) string {
 		}
 		vv := b.Build()
 		res := c.show(vv)
+		// neither the builder it came from nor a builder derived from it can change a built set
+		b[idx.ValidatorID(777777)] = 5
+		d := vv.Builder()
+		d.Set(idx.ValidatorID(888888), 9)
+		if len(ids) > 0 {
+			d.Set(ids[0], 0)
+			b.Set(ids[len(ids)-1], 0)
+		}
+		last := c.last
+		if c.show(vv) != res {
+			res += " BUILT-SET-CHANGED"
+		}
+		c.last = last
 		// Len / Exists / Get / Copy / Builder().Build() see the same set
 		cp := vv.Copy()
 		rb := vv.Builder().Build()
